@@ -13,7 +13,7 @@ VARIANT = 'plain'
 TOOLS = [('plain', 'abipkgdiff'), ('plain', 'abidiff')]
 JOBS = 3
 RERUNS = {'quick': 20, 'thorough': 100}
-ASSUMPTIONS = ['workloads stay where binary matching is unambiguous (flat or mirrored directory trees, one library of a family per directory)',
+ASSUMPTIONS = ['workloads stay where binary matching is unambiguous (flat or mirrored directory trees, one library of a family per directory, same common ELF-directory prefix in both packages - abipkgdiff keys binaries by path minus that prefix)',
                'abidiff on the same pair with the same option translation (--no-default-suppression, --redundant when given) is the per-pair oracle']
 NWL = {'quick': 60, 'thorough': 600}
 NSCHED = {'quick': 6, 'thorough': 12}
@@ -40,7 +40,7 @@ def make_items(ctx, only=None):
         if only and name != only:
             continue
         rng = C.Prng(C.mix_seed(ctx.seed, 30, 7, i))
-        wl = K.gen_workload(rng, big=(i % 7 == 6))
+        wl = K.gen_workload(rng, big=(i % 7 == 6), same_prefix=True)
         if i == 0:
             wl = {'files': [{'path': 'libtiny.so', 'v1': 'tiny_v0', 'v2': 'tiny_v1'}, {'path': 'libmathx.so', 'v1': 'mathx_v0', 'v2': None}],
                   'format': 'dir', 'abignore': 'none', 'options': ['--no-default-suppression']}       # removed binary, every other pair clean
@@ -48,6 +48,8 @@ def make_items(ctx, only=None):
             wl = {'files': [{'path': 'libtiny.so', 'v1': 'tiny_v0', 'v2': 'tiny_v1'}, {'path': 'lib/libshapes.so', 'v1': 'shapes_v0', 'v2': 'shapes_v2'},
                             {'path': 'lib/libcxx.so', 'v1': 'cxx_v0', 'v2': 'cxx_v0'}, {'path': 'libfnptr.so', 'v1': 'fnptr_v0', 'v2': 'fnptr_v0'}],
                   'format': 'dir', 'abignore': 'none', 'options': ['--no-default-suppression']}       # one changed pair among clean ones
+        if len(set(K.side_prefixes(wl))) != 1:
+            raise C.InfraError('workload %s leaves the region the reference model is valid in: ELF directory prefixes %r' % (name, K.side_prefixes(wl)))
         it = c31.prepare_item(ctx, name, wl, variant='plain')
         it['model'] = K.model(wl, ps)
         items[name] = it
@@ -121,6 +123,9 @@ def describe(ctx, cov, items, plans, results):
     cov['probes'] = {'workloads_with_removed_binary': sum(1 for it in items.values() if it['model']['removed']),
                      'workloads_with_removed_binary_and_all_pairs_clean': sum(1 for it in items.values() if it['model']['removed'] and not it['model']['sections']),
                      'workloads_with_added_binary': sum(1 for it in items.values() if it['model']['added']),
+                     'workloads_anchored_to_keep_elf_dir_prefix_equal': sum(1 for it in items.values() if it['wl'].get('anchored')),
+                     'workloads_with_removal_or_addition_inside_a_directory_tree': sum(1 for it in items.values() if any('/' in f['path'] for f in it['wl']['files'])
+                                                                                      and any(not (f['v1'] and f['v2']) for f in it['wl']['files'])),
                      'workloads_all_clean': sum(1 for it in items.values() if it['model']['status'] == 0),
                      'workloads_with_changed_and_clean_pairs': sum(1 for it in items.values() if it['model']['sections'] and len(it['model']['sections']) < sum(1 for f in it['wl']['files'] if f['v1'] and f['v2'])),
                      'distinct_pairs_judged_by_abidiff': sum(1 for k in ctx.memo if k[0] == 'pair'),
